@@ -494,6 +494,10 @@ impl RefState {
             if !self.pools.contains_key(&k) || !self.coins.contains_key(&tx.output_coinid(0)) {
                 continue;
             }
+            // a pool emptied by withdrawing all of its liquidity has no price to swap at
+            if self.pools[&k].lefts == 0 || self.pools[&k].rights == 0 {
+                continue;
+            }
             let d = tx.outputs[0].denom;
             if d != k.left() && d != k.right() {
                 continue;
